@@ -16,20 +16,23 @@ type Evidence struct {
 	WallS       float64        `json:"wall_s"`
 	Violations  int            `json:"violations"`
 
-	funcs     map[string]int64
-	stubs     map[string]int
-	harness   map[string]*harnessSum
-	samples   []string
-	assumes   map[string]bool
-	states    int
-	trans     int64
-	obl, dis  int
-	q         [3]int
-	solverS   float64
-	unwind    int
-	forks     int
-	infeas    int
-	cpuS      float64
+	funcs    map[string]int64
+	stubs    map[string]int
+	harness  map[string]*harnessSum
+	samples  []string
+	assumes  map[string]bool
+	states   int
+	trans    int64
+	obl, dis int
+	q        [3]int
+	solverS  float64
+	unwind   int
+	forks    int
+	infeas   int
+	cpuS     float64
+	maxQS    float64
+	slowQ    int
+	retried  int
 }
 
 type harnessSum struct {
@@ -56,6 +59,11 @@ func (e *Evidence) addResult(r *WorkerResult) {
 	e.q[2] += r.Unknown
 	e.solverS += r.SolverS
 	e.cpuS += r.WallS
+	if r.MaxQS > e.maxQS {
+		e.maxQS = r.MaxQS
+	}
+	e.slowQ += r.SlowQ
+	e.retried += r.Retried
 	e.unwind += r.UnwindHits
 	e.forks += r.Forks
 	e.infeas += r.PathsInfeas
@@ -104,6 +112,9 @@ func (e *Evidence) finish() {
 	c["queries_unknown"] = e.q[2]
 	c["solver_s"] = e.solverS
 	c["worker_cpu_s"] = e.cpuS
+	c["max_query_s"] = e.maxQS
+	c["queries_slower_than_50ms"] = e.slowQ
+	c["queries_unknown_then_unsat_in_fresh_solver"] = e.retried
 	c["unwinding_bound_hits"] = e.unwind
 	c["forks"] = e.forks
 	c["paths_ended_by_assume"] = e.infeas
